@@ -19,6 +19,20 @@ def nbytes(n):
   return st.one_of(st.sampled_from([b"\0" * n, b"\xff" * n, bytes(range(1, n + 1))]), st.binary(min_size=n, max_size=n))
 
 
+def blen(lo, hi, small=24):
+  """a length in lo..hi: mostly small, but min, min+1, max-1, max and the 255/256/257 boundary are drawn explicitly, so that every
+  variable-length element is exercised up to its length limit"""
+  edges = sorted({lo, min(lo + 1, hi), hi, max(hi - 1, lo)} | {b for b in (255, 256, 257) if lo <= b <= hi})
+  sm = st.integers(lo, max(lo, min(hi, small)))
+  return st.one_of(sm, sm, sm, st.sampled_from(edges), st.integers(lo, hi))
+
+
+def pbytes(lo, hi, small=24):
+  """bytes of a blen() length; long values are pattern-filled (cheap to draw and to shrink)"""
+  return st.one_of(st.binary(min_size=lo, max_size=max(lo, min(hi, small))),
+                   st.tuples(blen(lo, hi, small), st.integers(0, 6)).map(lambda t: P.pattern(t[0], t[1])))
+
+
 mac = nbytes(6)
 ip4 = nbytes(4)
 ip6 = nbytes(16)
@@ -112,8 +126,8 @@ def ipv4(**kw):
 
 
 def _ext_header():
-  normal = st.tuples(st.sampled_from([0, 43, 60]), st.integers(0, 3)).flatmap(
-      lambda t: st.fixed_dictionaries({"k": st.just(t[0]), "body": st.binary(min_size=6 + 8 * t[1], max_size=6 + 8 * t[1])}))
+  normal = st.tuples(st.sampled_from([0, 43, 60]), blen(0, 255, small=3), st.integers(0, 6)).map(
+      lambda t: {"k": t[0], "body": P.pattern(6 + 8 * t[1], t[2])})
   # fragment header with offset 0 and M=0 (an unfragmented datagram: the upper layer is still parseable)
   frag = st.binary(min_size=4, max_size=4).map(lambda ident: {"k": 44, "body": b"\0\0\0" + ident})
   return st.one_of(normal, normal, frag)
@@ -144,7 +158,7 @@ def _tcp_opt():
     st.just({"k": "sackperm"}),
     st.lists(st.lists(u(32), min_size=2, max_size=2), min_size=1, max_size=4).map(lambda v: {"k": "sack", "v": v}),
     st.lists(u(32), min_size=2, max_size=2).map(lambda v: {"k": "ts", "v": v}),
-    st.tuples(st.sampled_from(_UNK_KINDS), st.binary(max_size=12)).map(lambda t: {"k": "unk", "type": t[0], "data": t[1]}),
+    st.tuples(st.sampled_from(_UNK_KINDS), pbytes(0, 38, small=12)).map(lambda t: {"k": "unk", "type": t[0], "data": t[1]}),
     st.tuples(u(8), b8, st.one_of(st.none(), b8), st.integers(0, 15)).map(
         lambda t: {"k": "mpcap", "flags": t[0], "skey": t[1], "rkey": t[2], "ver": t[3]}),
     st.tuples(st.integers(1, 3), st.integers(0, 15), u(8), b4, b4, b20).map(
@@ -166,7 +180,8 @@ def _fit_tcp_opts(opts):
 
 def tcp(free=True):
   d = {"t": st.just("tcp"), "seq": u(32), "ack": u(32), "res": st.integers(0, 15), "flags": u(8), "win": u(16), "urg": u(16),
-       "opts": st.one_of(st.just([]), st.lists(_tcp_opt(), max_size=6).map(_fit_tcp_opts))}
+       "opts": st.one_of(st.just([]), st.lists(_tcp_opt(), max_size=6).map(_fit_tcp_opts),
+                         st.lists(_tcp_opt(), min_size=8, max_size=40).map(_fit_tcp_opts))}
   d["sport"] = u(16)
   d["dport"] = u(16)
   return st.fixed_dictionaries(d)
@@ -174,8 +189,23 @@ def tcp(free=True):
 
 # --------------------------------------------------------------------------- applications
 
-_label = st.text("abcdefghijklmnopqrstuvwxyz0123456789-", min_size=1, max_size=10)
-dns_name = st.lists(_label, min_size=1, max_size=4).map(".".join)
+_label = blen(1, 63, small=10).flatmap(lambda n: st.text("abcdefghijklmnopqrstuvwxyz0123456789-", min_size=n, max_size=n))
+
+
+def _fit_name(labels):
+  """a name is at most 255 octets on the wire (length octets and the root label included)"""
+  out, n = [], 1
+  for l in labels:
+    if n + 1 + len(l) > 255:
+      l = l[:255 - n - 1]
+      if not l:
+        break
+    out.append(l)
+    n += 1 + len(l)
+  return ".".join(out)
+
+
+dns_name = st.lists(_label, min_size=1, max_size=5).map(_fit_name)
 _suffix_names = st.sampled_from(["example.com", "a.example.com", "b.a.example.com", "com", "x.org"])
 dns_any_name = st.one_of(dns_name, _suffix_names)
 
@@ -184,7 +214,7 @@ def _rr():
   rd = st.one_of(
     ip4.map(lambda a: (1, {"a": a})), ip6.map(lambda a: (28, {"aaaa": a})),
     st.tuples(st.sampled_from([2, 5, 12]), dns_any_name).map(lambda t: (t[0], {"name": t[1]})),
-    st.tuples(st.sampled_from([16, 10, 13, 99, 255]), st.binary(max_size=24)).map(lambda t: (t[0], {"raw": t[1]})),
+    st.tuples(st.sampled_from([16, 10, 13, 99, 255]), pbytes(0, 1000)).map(lambda t: (t[0], {"raw": t[1]})),
   )
   return st.tuples(dns_any_name, rd, u(16), u(32)).map(
       lambda t: {"name": t[0], "qtype": t[1][0], "rd": t[1][1], "qclass": t[2], "ttl": t[3]})
@@ -209,12 +239,13 @@ _DHCP_KNOWN = set(_DHCP_IP + _DHCP_IPS + _DHCP_SECS + _DHCP_RAWK + [53, 52, 55, 
 def _dhcp_opt():
   return st.one_of(
     st.tuples(st.sampled_from(_DHCP_IP), ip4).map(lambda t: {"code": t[0], "k": "ip", "v": t[1]}),
-    st.tuples(st.sampled_from(_DHCP_IPS), st.lists(ip4, min_size=1, max_size=4)).map(lambda t: {"code": t[0], "k": "ips", "v": t[1]}),
+    st.tuples(st.sampled_from(_DHCP_IPS), st.one_of(st.lists(ip4, min_size=1, max_size=4), blen(1, 63).map(lambda n: [bytes([10, 9, 0, i]) for i in range(n)]))).map(
+        lambda t: {"code": t[0], "k": "ips", "v": t[1]}),
     st.tuples(st.sampled_from(_DHCP_SECS), u(32)).map(lambda t: {"code": t[0], "k": "secs", "v": t[1]}),
     st.integers(1, 8).map(lambda v: {"code": 53, "k": "msgtype", "v": v}),
-    st.lists(st.integers(1, 254), max_size=8).map(lambda v: {"code": 55, "k": "params", "v": bytes(v)}),
-    st.tuples(st.sampled_from(_DHCP_RAWK), st.binary(min_size=1, max_size=20)).map(lambda t: {"code": t[0], "k": "raw", "v": t[1]}),
-    st.tuples(st.integers(60, 254), st.binary(min_size=1, max_size=20)).map(lambda t: {"code": t[0], "k": "raw", "v": t[1]}),
+    st.one_of(st.lists(st.integers(1, 254), max_size=8), blen(0, 255).map(lambda n: [1 + i % 254 for i in range(n)])).map(lambda v: {"code": 55, "k": "params", "v": bytes(v)}),
+    st.tuples(st.sampled_from(_DHCP_RAWK), pbytes(1, 600, small=20)).map(lambda t: {"code": t[0], "k": "raw", "v": t[1]}),
+    st.tuples(st.integers(60, 254), pbytes(1, 600, small=20)).map(lambda t: {"code": t[0], "k": "raw", "v": t[1]}),
   )
 
 
@@ -231,33 +262,34 @@ def dhcp():
   return st.fixed_dictionaries({
     "t": st.just("dhcp"), "op": st.sampled_from([1, 2]), "htype": st.just(1), "hlen": st.just(6), "hops": u(8), "xid": u(32),
     "secs": u(16), "flags": st.sampled_from([0, 0x8000]), "ci": ip4, "yi": ip4, "si": ip4, "gi": ip4, "chaddr": mac,
-    "sname": st.one_of(st.just(b""), st.binary(max_size=63)), "file": st.one_of(st.just(b""), st.binary(max_size=127)),
+    "sname": st.one_of(st.just(b""), st.binary(max_size=63), st.sampled_from([b"s" * 63, b"s" * 64])),
+    "file": st.one_of(st.just(b""), st.binary(max_size=127), st.sampled_from([b"f" * 127, b"f" * 128])),
     "opts": st.lists(_dhcp_opt(), max_size=6).map(_uniq_codes)})
 
 
 def rip():
   e = st.fixed_dictionaries({"af": st.sampled_from([2, 0, 0xffff]), "tag": u(16), "ip": ip4, "mask": ip4, "nh": ip4, "metric": u(32)})
   return st.fixed_dictionaries({"t": st.just("rip"), "cmd": st.sampled_from([1, 2]), "ver": st.sampled_from([1, 2]),
-                                "entries": st.lists(e, min_size=1, max_size=5)})
+                                "entries": st.one_of(st.lists(e, min_size=1, max_size=5), st.lists(e, min_size=24, max_size=25))})
 
 
 def lldp():
-  sid = st.binary(min_size=1, max_size=16)
+  sid = pbytes(1, 510, small=16)
   chassis = st.one_of(mac.map(lambda m: {"k": "chassis", "sub": 4, "id": m}),
                       st.tuples(st.sampled_from([1, 2, 3, 5, 6, 7]), sid).map(lambda t: {"k": "chassis", "sub": t[0], "id": t[1]}))
   port = st.one_of(mac.map(lambda m: {"k": "port", "sub": 3, "id": m}),
                    st.tuples(st.sampled_from([1, 2, 4, 5, 6, 7]), sid).map(lambda t: {"k": "port", "sub": t[0], "id": t[1]}))
   ttl = u(16).map(lambda v: {"k": "ttl", "v": v})
-  text = st.binary(max_size=40)
+  text = pbytes(0, 511, small=40)
   opt = st.one_of(
     text.map(lambda v: {"k": "portdesc", "v": v}), text.map(lambda v: {"k": "sysname", "v": v}), text.map(lambda v: {"k": "sysdesc", "v": v}),
     st.tuples(u(16), u(16)).map(lambda t: {"k": "syscap", "cap": t[0], "en": t[1]}),
-    st.tuples(st.integers(0, 255), st.binary(min_size=1, max_size=16), st.integers(1, 3), u(32), st.binary(max_size=8)).map(
+    st.tuples(st.integers(0, 255), pbytes(1, 254, small=16), st.integers(1, 3), u(32), pbytes(0, 200, small=8)).map(
         lambda t: {"k": "mgmt", "asub": t[0], "addr": t[1], "isub": t[2], "ifnum": t[3], "oid": t[4]}),
-    st.tuples(nbytes(3), u(8), st.binary(max_size=24)).map(lambda t: {"k": "org", "oui": t[0], "sub": t[1], "data": t[2]}),
-    st.tuples(st.integers(9, 126), st.binary(max_size=16)).map(lambda t: {"k": "unk", "type": t[0], "data": t[1]}),
+    st.tuples(nbytes(3), u(8), pbytes(0, 507)).map(lambda t: {"k": "org", "oui": t[0], "sub": t[1], "data": t[2]}),
+    st.tuples(st.integers(9, 126), pbytes(0, 511, small=16)).map(lambda t: {"k": "unk", "type": t[0], "data": t[1]}),
   )
-  return st.tuples(chassis, port, ttl, st.lists(opt, max_size=5)).map(
+  return st.tuples(chassis, port, ttl, st.one_of(st.lists(opt, max_size=5), st.lists(opt, max_size=5), st.lists(opt, min_size=10, max_size=20))).map(
       lambda t: {"t": "lldp", "tlvs": [t[0], t[1], t[2]] + t[3] + [{"k": "end"}]})
 
 
@@ -267,12 +299,12 @@ def _nd_opt():
     u(32).map(lambda v: {"k": "mtu", "mtu": v}),
     st.tuples(st.integers(0, 128), st.booleans(), st.booleans(), u(32), u(32), ip6).map(
         lambda t: {"k": "prefix", "plen": t[0], "on_link": t[1], "auto": t[2], "valid": t[3], "pref": t[4], "prefix": t[5]}),
-    st.tuples(st.sampled_from([4, 6, 14, 25, 31, 200]), st.integers(0, 2)).flatmap(
-        lambda t: st.binary(min_size=6 + 8 * t[1], max_size=6 + 8 * t[1]).map(lambda d: {"k": "gen", "type": t[0], "data": d})),
+    st.tuples(st.sampled_from([4, 6, 14, 25, 31, 200]), blen(0, 254, small=2), st.integers(0, 6)).map(
+        lambda t: {"k": "gen", "type": t[0], "data": P.pattern(6 + 8 * t[1], t[2])}),
   )
 
 
-_nd_opts = st.lists(_nd_opt(), max_size=3)
+_nd_opts = st.one_of(st.lists(_nd_opt(), max_size=3), st.lists(_nd_opt(), max_size=3), st.lists(_nd_opt(), min_size=8, max_size=16))
 
 
 def nd():
@@ -294,14 +326,15 @@ def igmp():
 
 
 def igmp3():
-  rec = st.fixed_dictionaries({"type": st.integers(1, 6), "aux": st.integers(0, 2).flatmap(lambda n: st.binary(min_size=4 * n, max_size=4 * n)),
-                               "srcs": st.lists(ip4, max_size=3), "addr": ip4})
-  return st.fixed_dictionaries({"t": st.just("igmp3"), "records": st.lists(rec, max_size=3),
+  rec = st.fixed_dictionaries({"type": st.integers(1, 6), "aux": blen(0, 255, small=2).map(lambda n: P.pattern(4 * n, 3)),
+                               "srcs": st.one_of(st.lists(ip4, max_size=3), blen(0, 300, small=3).map(lambda n: [bytes([10, 8, i // 256, i % 256]) for i in range(n)])),
+                               "addr": ip4})
+  return st.fixed_dictionaries({"t": st.just("igmp3"), "records": st.one_of(st.lists(rec, max_size=3), st.lists(rec, min_size=8, max_size=12)),
                                 "extra": st.one_of(st.just(b""), st.binary(max_size=5))})
 
 
 def gre(**kw):
-  sre = st.tuples(st.integers(1, 0xffff), u(8), st.integers(1, 4).flatmap(lambda n: st.binary(min_size=4 * n, max_size=4 * n))).map(list)
+  sre = st.tuples(st.integers(1, 0xffff), u(8), pbytes(1, 255, small=16)).map(list)
   d = {"t": st.just("gre"), "csum": st.sampled_from([None, None, "auto"]), "key": st.one_of(st.none(), u(32)),
        "seq": st.one_of(st.none(), u(32)), "ssr": st.booleans(), "rec": st.integers(0, 7),
        "routing": st.one_of(st.none(), st.none(), st.lists(sre, max_size=2))}
